@@ -39,6 +39,10 @@ def main() -> int:
     except leantools.ToolFailure as e:
         print(f"TOOL-FAILURE: {e}")
         return 2
+    except Exception:  # noqa: BLE001 -- a crash of the machinery is a tool failure, never a verdict
+        import traceback
+        print("TOOL-FAILURE: " + traceback.format_exc()[-3000:])
+        return 2
 
 
 if __name__ == "__main__":
